@@ -138,10 +138,37 @@ class Ledger:
 
 
 class Shadow:
-    """run a callable with the three cache dictionaries swapped for empty ones"""
+    """run a callable with the three cache dictionaries swapped for empty ones.
+
+    Rendering may change widget state and invalidate (ListBox completing a pending focus change moves
+    an Edit's cursor, which calls _invalidate()).  Under swapped dictionaries such an invalidation would
+    only clear the shadow entries, so it is recorded and re-applied to the real cache afterwards -
+    exactly what the same render would have done in a normal session."""
+
+    in_shadow = False
+    pending_invalidations: list = []
+    hooked = False
 
     def __init__(self):
         self.graveyard = []
+        self.hook()
+
+    @classmethod
+    def hook(cls):
+        if cls.hooked:
+            return
+        from urwid.canvas import CanvasCache as CC
+
+        orig = CC.invalidate.__func__
+
+        def invalidate(ccls, widget):
+            if cls.in_shadow:
+                cls.pending_invalidations.append(widget)
+            return orig(ccls, widget)
+
+        CC.invalidate = classmethod(invalidate)
+        cls.orig_invalidate = orig
+        cls.hooked = True
 
     def __call__(self, fn):
         from urwid.canvas import CanvasCache as CC
@@ -152,13 +179,20 @@ class Shadow:
         rec = led.recording if led else None
         if led:
             led.recording = False
+        outer = Shadow.in_shadow
+        Shadow.in_shadow = True
         try:
             res = fn()
         finally:
+            Shadow.in_shadow = outer
             if led:
                 led.recording = rec
             self.graveyard.append((CC._widgets, CC._refs, CC._deps))
             CC._widgets, CC._refs, CC._deps = saved
+            if not outer:
+                todo, Shadow.pending_invalidations = Shadow.pending_invalidations, []
+                for w in todo:
+                    Shadow.orig_invalidate(CC, w)
         self.graveyard.append(res)
         return res
 
